@@ -193,6 +193,7 @@ def ex_case(ctx, case, test="CL", num_sim=3, source="seed", seed=1):
     rates = numpy.array(case["rates"], dtype=float)
     r1d = rates_for(test, rates).ravel()
     rc = {"exec": "case", "args": {"case": case, "test": test, "num_sim": num_sim, "source": source, "seed": seed}}
+    ctx.current_case = rc
     n_obs = int(w.sum())
     wobs = {"S": w.sum(axis=1), "BS": w.sum(axis=1), "M": w.sum(axis=0)}.get(test, w)
     n_active = int((wobs > 0).sum())
@@ -311,6 +312,7 @@ def ex_prim(ctx, r1d, n, draws, kind="poisson"):
     W = numpy.cumsum(r1d) / numpy.sum(r1d)
     u = numpy.asarray(draws, dtype=float)
     rc = {"exec": "prim", "args": {"r1d": r1d, "n": n, "draws": u, "kind": kind}}
+    ctx.current_case = rc
     tags = {"kind": kind, "source": "prim", "has_zero_rate": bool((r1d == 0).any())}
     mod = {"poisson": pe, "binary": be, "brier": br}[kind]
     with simlog.RngLog() as rl, simlog.SimLog(mod, kind, rl) as sl:
@@ -354,6 +356,7 @@ def ex_resample(ctx, sizes_seed, test="RM", seed=0, n_obs=6):
         return fixtures.catalog_forecast(cats, reg), obs, cats
     fn = ce.resampled_magnitude_test if test == "RM" else ce.MLL_magnitude_test
     rc = {"exec": "resample", "args": {"sizes_seed": sizes_seed, "test": test, "seed": seed, "n_obs": n_obs}}
+    ctx.current_case = rc
     tags = {"test": test, "seed_zero": seed == 0, "source": "seed", "kind": "resample"}
     cf, obs, cats = mk()
     if sum(c.event_count for c in cats) == 0:
